@@ -255,13 +255,30 @@ FormsFails(e) ==
     \cup Tag(s.size = Len(s.bytes), "serializer-" \o FormName(s.form) \o ":size")
     \cup Tag(s.st2 = 0 /\ SameVal(S, s.v2, s.v) /\ s.used = Len(s.bytes), "deserializer-" \o FormName(s.form) \o ":roundtrip"))
 
+\* The same encodings cut at every strict prefix and read by the library's reader classes directly (typed block
+\* transfers reach them unchanged): a strict prefix is never reported as decoded (C05).  Written through the checked
+\* writer classes at every capacity below the encoding's length: the write must be refused (C06).
+CutReader(j) == CASE j = 1 -> "buffer" [] j = 2 -> "pedantic" [] OTHER -> "stream"
+CapWriter(j) == IF j = 1 THEN "pedantic" ELSE "constexpr"
+FormsCutFails(e) ==
+  UnionOver(Len(e.steps), LAMBDA i :
+    LET s == e.steps[i] IN
+    IF ~Has(s, "cuts") THEN {}
+    ELSE UnionOver(Len(s.cuts), LAMBDA k : UnionOver(Len(s.cuts[k]), LAMBDA j : Tag(s.cuts[k][j] # 0, "prefix-accepted:" \o CutReader(j)))))
+FormsCapFails(e) ==
+  UnionOver(Len(e.steps), LAMBDA i :
+    LET s == e.steps[i] IN
+    IF ~Has(s, "caps") THEN {}
+    ELSE UnionOver(Len(s.caps), LAMBDA k : UnionOver(Len(s.caps[k]), LAMBDA j : Tag(s.caps[k][j] # 0, "written-beyond-capacity:" \o CapWriter(j)))))
+
 \* ---- dispatch ---------------------------------------------------------------
 HasPrior(e) == \E i \in 1..Len(e.items) : Has(e.items[i], "prior")
 
 Fails(e) ==
   IF e.e \in AbnormalKinds THEN {"abnormal"}
   ELSE IF e.e \in {"Reset", "Facts", "Echo", "S"} THEN {}
-  ELSE IF e.e = "FORMS" THEN (IF PROP \in {"C01", "C03", "C06"} THEN FormsFails(e) ELSE {})
+  ELSE IF e.e = "FORMS" THEN (IF PROP \in {"C01", "C03", "C06"} THEN FormsFails(e) \cup (IF PROP = "C06" THEN FormsCapFails(e) ELSE {})
+                              ELSE IF PROP = "C05" THEN FormsCutFails(e) ELSE {})
   ELSE CASE PROP = "C01" -> IF e.e = "W" THEN C01W(e) ELSE IF e.e = "R" THEN C01R(e) ELSE {}
          [] PROP = "C02" -> IF e.e = "R" THEN C02R(e) ELSE {}
          [] PROP = "C03" -> IF e.e = "W" THEN C03W(e) ELSE {}
